@@ -6,6 +6,7 @@ import Mathlib.Tactic.Ring
 import Mathlib.Tactic.FieldSimp
 import Mathlib.Tactic.Linarith
 import Mathlib.Algebra.Order.Field.Rat
+import Mathlib.Data.List.Nodup
 /-!
 Helper lemmas for C01 / C02 (`Gillespie_SIR` / `Gillespie_SIS`): the definitions of `Gillespie.WF` and
 `Gillespie.Inv`, a generic specification of a batch of `_ListDict_` operations with pairwise distinct keys,
@@ -29,11 +30,15 @@ def Op.ok (s : LD α) : Op α → Prop
   | .upd x w => x ∉ s.items ∧ w.isSome = s.weighted ∧ ∀ v, w = some v → 0 ≤ v
   | .rem x => x ∈ s.items
 
+theorem ite_some_exists {β : Type} (c : Prop) [Decidable c] (a b : β) :
+    ∃ r, (if c then some a else some b) = some r := by
+  split <;> exact ⟨_, rfl⟩
+
 theorem update_some_exists (s : LD α) (x : α) (w : Rat) (hwt : s.weighted = true) :
     ∃ s', s.update x (some w) = some s' := by
   unfold update
   simp only [hwt, Bool.not_true, Bool.false_eq_true, if_false]
-  split <;> exact ⟨_, rfl⟩
+  exact ite_some_exists _ _ _
 
 theorem update_none_shape (s : LD α) (x : α) (hwt : s.weighted = false) :
     ∃ s', s.update x none = some s' ∧ s'.weighted = false ∧ s'.weight = s.weight ∧
@@ -42,7 +47,7 @@ theorem update_none_shape (s : LD α) (x : α) (hwt : s.weighted = false) :
   simp only [hwt, Bool.false_eq_true, if_false]
   by_cases hx : x ∈ s.items
   · simp only [hx, if_true]; exact ⟨_, rfl, hwt, rfl, rfl⟩
-  · simp only [hx, if_false]; exact ⟨_, rfl, hwt, rfl, rfl⟩
+  · simp only [hx, if_false]; exact ⟨_, rfl, rfl, rfl, rfl⟩
 
 /-- shape of a successful `update` with any argument -/
 theorem update_any (s s' : LD α) (x : α) (w : Option Rat) (hs : s.update x w = some s') :
@@ -160,7 +165,7 @@ theorem applyOps_spec (ops : List (Op α)) (s : LD α) (h : Inv s)
         · exact hgw' y v hy
       · intro y hy
         rw [hgo' y (fun o' ho' => hy o' (by simp [ho'])), hget1 y]
-        exact fun hc => hy _ (by simp) hc.symm
+        exact fun hc => hy (Op.upd x w) List.mem_cons_self hc.symm
     | rem x =>
       have hx : x ∈ s.items := ho
       obtain ⟨s1, hs1, hinv1, hwd1, hmem1, hget1⟩ := remove_any s x h hx
@@ -198,6 +203,551 @@ theorem applyOps_spec (ops : List (Op α)) (s : LD α) (h : Inv s)
         · exact hgw' y v hy
       · intro y hy
         rw [hgo' y (fun o' ho' => hy o' (by simp [ho'])), hget1 y]
-        exact fun hc => hy _ (by simp) hc.symm
+        exact fun hc => hy (Op.rem x) List.mem_cons_self hc.symm
+
+/-- the batch specification with the "unchanged weight" clause stated for surviving candidates -/
+theorem applyOps_spec' (ops : List (Op α)) (s : LD α) (h : Inv s)
+    (hk : ops.Pairwise fun a b => a.key ≠ b.key) (hop : ∀ o ∈ ops, o.ok s) :
+    ∃ s', s.applyOps ops = some s' ∧ Inv s' ∧ s'.weighted = s.weighted ∧
+      (∀ y, y ∈ s'.items ↔ ((y ∈ s.items ∧ Op.rem y ∉ ops) ∨ ∃ w, Op.upd y w ∈ ops)) ∧
+      (∀ y w, Op.upd y (some w) ∈ ops → s'.getW y = w) ∧
+      (∀ y ∈ s'.items, (¬ ∃ w, Op.upd y w ∈ ops) → y ∈ s.items ∧ s'.getW y = s.getW y) := by
+  obtain ⟨s', hs', hinv', hwd', hmem', hgw', hgo'⟩ := applyOps_spec ops s h hk hop
+  refine ⟨s', hs', hinv', hwd', hmem', hgw', ?_⟩
+  intro y hy hnu
+  rcases (hmem' y).1 hy with ⟨h1, h2⟩ | h1
+  · refine ⟨h1, hgo' y ?_⟩
+    intro o ho hkey
+    have hok := hop o ho
+    cases o with
+    | ins _ _ => exact hok
+    | upd x w => exact hnu ⟨w, by rw [← show x = y from hkey]; exact ho⟩
+    | rem x => exact h2 (by rw [← show x = y from hkey]; exact ho)
+  · exact absurd h1 hnu
 
 end LD
+
+namespace Gillespie
+
+/-- well-formed undirected simple contact network with non-negative symmetric weights -/
+structure WF (P : GParams) : Prop where
+  nodup : P.nodes.Nodup
+  nbr_nodup : ∀ u ∈ P.nodes, (P.nbrs u).Nodup
+  nbr_mem : ∀ u ∈ P.nodes, ∀ v ∈ P.nbrs u, v ∈ P.nodes
+  nbr_out : ∀ u, u ∉ P.nodes → P.nbrs u = []
+  symm : ∀ u v, v ∈ P.nbrs u → u ∈ P.nbrs v
+  noloop : ∀ u, u ∉ P.nbrs u
+  ew_nonneg : ∀ f, P.ew = some f → ∀ u v, 0 ≤ f u v
+  ew_symm : ∀ f, P.ew = some f → ∀ u v, f u v = f v u
+  nw_nonneg : ∀ f, P.nw = some f → ∀ u, 0 ≤ f u
+  tau_nonneg : 0 ≤ P.tau
+  gamma_nonneg : 0 ≤ P.gamma
+
+/-- The bookkeeping invariant: the two candidate structures equal the sets implied by the statuses. -/
+structure Inv (P : GParams) (s : GState) : Prop where
+  infInv : LD.Inv s.inf
+  linkInv : LD.Inv s.links
+  infW : s.inf.weighted = P.nw.isSome
+  linkW : s.links.weighted = P.ew.isSome
+  inf_items : ∀ u, u ∈ s.inf.items ↔ (u ∈ P.nodes ∧ s.status u = St.I)
+  link_items : ∀ u v, (u, v) ∈ s.links.items ↔ (u ∈ P.nodes ∧ s.status u = St.I ∧ v ∈ P.nbrs u ∧ s.status v = St.S)
+  inf_w : ∀ f, P.nw = some f → ∀ u ∈ s.inf.items, s.inf.getW u = f u
+  link_w : ∀ f, P.ew = some f → ∀ p ∈ s.links.items, s.links.getW p = f p.1 p.2
+  sis_noR : P.sis = true → ∀ u, s.status u ≠ St.R
+
+/-! ### the neighbour loops as batches of operations -/
+
+abbrev LOp := LD.Op (Node × Node)
+
+def initLinksOps (P : GParams) (status : Node → St) (node : Node) (l : List Node) : List LOp :=
+  l.filterMap fun nbr => if status nbr = St.S then some (.upd (node, nbr) (edgeW P node nbr)) else none
+
+def recSIROps (status : Node → St) (u : Node) (l : List Node) : List LOp :=
+  l.filterMap fun nbr => if status nbr = St.S then some (.rem (u, nbr)) else none
+
+def recSISOps (P : GParams) (status : Node → St) (u : Node) (l : List Node) : List LOp :=
+  l.filterMap fun nbr =>
+    if nbr = u then none
+    else if status nbr = St.S then some (.rem (u, nbr))
+    else some (.upd (nbr, u) (edgeW P u nbr))
+
+def transOps (P : GParams) (status : Node → St) (v : Node) (l : List Node) : List LOp :=
+  l.filterMap fun nbr =>
+    if status nbr = St.S then some (.upd (v, nbr) (edgeW P v nbr))
+    else if (P.sis ∨ status nbr = St.I) ∧ nbr ≠ v then some (.rem (nbr, v))
+    else none
+
+theorem initLinks_eq (P : GParams) (status : Node → St) (node : Node) (l : List Node)
+    (links : LD (Node × Node)) :
+    initLinks P status node links l = links.applyOps (initLinksOps P status node l) := by
+  induction l generalizing links with
+  | nil => rfl
+  | cons nbr rest ih =>
+    unfold initLinks initLinksOps
+    by_cases h1 : status nbr = St.S
+    · simp only [List.filterMap_cons, h1, if_true, LD.applyOps, LD.applyOp]
+      cases links.update (node, nbr) (edgeW P node nbr) with
+      | none => rfl
+      | some l1 => exact ih l1
+    · simp only [List.filterMap_cons, h1, if_false]
+      exact ih links
+
+theorem recLoopSIR_eq (status : Node → St) (u : Node) (l : List Node) (links : LD (Node × Node)) :
+    recLoopSIR status u links l = links.applyOps (recSIROps status u l) := by
+  induction l generalizing links with
+  | nil => rfl
+  | cons nbr rest ih =>
+    unfold recLoopSIR recSIROps
+    by_cases h1 : status nbr = St.S
+    · simp only [List.filterMap_cons, h1, if_true, LD.applyOps, LD.applyOp]
+      cases links.remove (u, nbr) with
+      | none => rfl
+      | some l1 => exact ih l1
+    · simp only [List.filterMap_cons, h1, if_false]
+      exact ih links
+
+theorem recLoopSIS_eq (P : GParams) (status : Node → St) (u : Node) (l : List Node)
+    (links : LD (Node × Node)) :
+    recLoopSIS P status u links l = links.applyOps (recSISOps P status u l) := by
+  induction l generalizing links with
+  | nil => rfl
+  | cons nbr rest ih =>
+    unfold recLoopSIS recSISOps
+    by_cases h0 : nbr = u
+    · simp only [List.filterMap_cons, h0, if_true]
+      exact ih links
+    · by_cases h1 : status nbr = St.S
+      · simp only [List.filterMap_cons, h0, h1, if_true, if_false, LD.applyOps, LD.applyOp]
+        cases links.remove (u, nbr) with
+        | none => rfl
+        | some l1 => exact ih l1
+      · simp only [List.filterMap_cons, h0, h1, if_false, LD.applyOps, LD.applyOp]
+        cases links.update (nbr, u) (edgeW P u nbr) with
+        | none => rfl
+        | some l1 => exact ih l1
+
+theorem transLoop_eq (P : GParams) (status : Node → St) (v : Node) (l : List Node)
+    (links : LD (Node × Node)) :
+    transLoop P status v links l = links.applyOps (transOps P status v l) := by
+  induction l generalizing links with
+  | nil => rfl
+  | cons nbr rest ih =>
+    unfold transLoop transOps
+    by_cases h1 : status nbr = St.S
+    · simp only [List.filterMap_cons, h1, if_true, LD.applyOps, LD.applyOp]
+      cases links.update (v, nbr) (edgeW P v nbr) with
+      | none => rfl
+      | some l1 => exact ih l1
+    · by_cases h2 : (P.sis ∨ status nbr = St.I) ∧ nbr ≠ v
+      · simp only [List.filterMap_cons, h1, if_false]
+        rw [if_pos h2, if_pos h2]
+        simp only [LD.applyOps, LD.applyOp]
+        cases links.remove (nbr, v) with
+        | none => rfl
+        | some l1 => exact ih l1
+      · simp only [List.filterMap_cons, h1, if_false]
+        rw [if_neg h2, if_neg h2]
+        exact ih links
+
+/-! membership in the batches -/
+
+theorem mem_initLinksOps_upd (P : GParams) (st : Node → St) (node : Node) (l : List Node) (p : Node × Node)
+    (w : Option Rat) :
+    LD.Op.upd p w ∈ initLinksOps P st node l ↔
+      (p.1 = node ∧ p.2 ∈ l ∧ st p.2 = St.S ∧ w = edgeW P node p.2) := by
+  obtain ⟨a, b⟩ := p
+  simp only [initLinksOps, List.mem_filterMap]
+  constructor
+  · rintro ⟨n, hn, hg⟩
+    split at hg
+    · cases hg; simp_all
+    · cases hg
+  · rintro ⟨rfl, h2, h3, rfl⟩
+    exact ⟨b, h2, by simp [h3]⟩
+
+theorem mem_initLinksOps_rem (P : GParams) (st : Node → St) (node : Node) (l : List Node) (p : Node × Node) :
+    LD.Op.rem p ∉ initLinksOps P st node l := by
+  simp only [initLinksOps, List.mem_filterMap]
+  rintro ⟨n, hn, hg⟩
+  split at hg <;> cases hg
+
+theorem mem_recSIROps_upd (st : Node → St) (u : Node) (l : List Node) (p : Node × Node) (w : Option Rat) :
+    LD.Op.upd p w ∉ recSIROps st u l := by
+  simp only [recSIROps, List.mem_filterMap]
+  rintro ⟨n, hn, hg⟩
+  split at hg <;> cases hg
+
+theorem mem_recSIROps_rem (st : Node → St) (u : Node) (l : List Node) (p : Node × Node) :
+    LD.Op.rem p ∈ recSIROps st u l ↔ (p.1 = u ∧ p.2 ∈ l ∧ st p.2 = St.S) := by
+  obtain ⟨a, b⟩ := p
+  simp only [recSIROps, List.mem_filterMap]
+  constructor
+  · rintro ⟨n, hn, hg⟩
+    split at hg
+    · cases hg; simp_all
+    · cases hg
+  · rintro ⟨rfl, h2, h3⟩
+    exact ⟨b, h2, by simp [h3]⟩
+
+theorem mem_recSISOps_upd (P : GParams) (st : Node → St) (u : Node) (l : List Node) (p : Node × Node)
+    (w : Option Rat) :
+    LD.Op.upd p w ∈ recSISOps P st u l ↔
+      (p.2 = u ∧ p.1 ∈ l ∧ p.1 ≠ u ∧ st p.1 ≠ St.S ∧ w = edgeW P u p.1) := by
+  obtain ⟨a, b⟩ := p
+  simp only [recSISOps, List.mem_filterMap]
+  constructor
+  · rintro ⟨n, hn, hg⟩
+    split at hg
+    · cases hg
+    · split at hg
+      · cases hg
+      · cases hg; simp_all
+  · rintro ⟨rfl, h2, h3, h4, rfl⟩
+    exact ⟨a, h2, by simp [h3, h4]⟩
+
+theorem mem_recSISOps_rem (P : GParams) (st : Node → St) (u : Node) (l : List Node) (p : Node × Node) :
+    LD.Op.rem p ∈ recSISOps P st u l ↔ (p.1 = u ∧ p.2 ∈ l ∧ p.2 ≠ u ∧ st p.2 = St.S) := by
+  obtain ⟨a, b⟩ := p
+  simp only [recSISOps, List.mem_filterMap]
+  constructor
+  · rintro ⟨n, hn, hg⟩
+    split at hg
+    · cases hg
+    · split at hg
+      · cases hg; simp_all
+      · cases hg
+  · rintro ⟨rfl, h2, h3, h4⟩
+    exact ⟨b, h2, by simp [h3, h4]⟩
+
+theorem mem_transOps_upd (P : GParams) (st : Node → St) (v : Node) (l : List Node) (p : Node × Node)
+    (w : Option Rat) :
+    LD.Op.upd p w ∈ transOps P st v l ↔ (p.1 = v ∧ p.2 ∈ l ∧ st p.2 = St.S ∧ w = edgeW P v p.2) := by
+  obtain ⟨a, b⟩ := p
+  simp only [transOps, List.mem_filterMap]
+  constructor
+  · rintro ⟨n, hn, hg⟩
+    split at hg
+    · cases hg; simp_all
+    · split at hg <;> cases hg
+  · rintro ⟨rfl, h2, h3, rfl⟩
+    exact ⟨b, h2, by simp [h3]⟩
+
+theorem mem_transOps_rem (P : GParams) (st : Node → St) (v : Node) (l : List Node) (p : Node × Node) :
+    LD.Op.rem p ∈ transOps P st v l ↔
+      (p.2 = v ∧ p.1 ∈ l ∧ st p.1 ≠ St.S ∧ (P.sis = true ∨ st p.1 = St.I) ∧ p.1 ≠ v) := by
+  obtain ⟨a, b⟩ := p
+  simp only [transOps, List.mem_filterMap]
+  constructor
+  · rintro ⟨n, hn, hg⟩
+    split at hg
+    · cases hg
+    · split at hg
+      · cases hg; simp_all
+      · cases hg
+  · rintro ⟨rfl, h2, h3, h4, h5⟩
+    exact ⟨a, h2, by simp [h3, h4, h5]⟩
+
+/-! distinct keys -/
+
+theorem initLinksOps_keys (P : GParams) (st : Node → St) (node : Node) (l : List Node) (hl : l.Nodup) :
+    (initLinksOps P st node l).Pairwise fun a b => a.key ≠ b.key := by
+  refine List.Pairwise.filterMap (R := (· ≠ ·)) _ ?_ hl
+  intro a a' hne b hb b' hb'
+  split at hb <;> split at hb' <;> cases hb <;> cases hb'
+  simp [LD.Op.key, hne]
+
+theorem recSIROps_keys (st : Node → St) (u : Node) (l : List Node) (hl : l.Nodup) :
+    (recSIROps st u l).Pairwise fun a b => a.key ≠ b.key := by
+  refine List.Pairwise.filterMap (R := (· ≠ ·)) _ ?_ hl
+  intro a a' hne b hb b' hb'
+  split at hb <;> split at hb' <;> cases hb <;> cases hb'
+  simp [LD.Op.key, hne]
+
+theorem recSISOps_keys (P : GParams) (st : Node → St) (u : Node) (l : List Node) (hl : l.Nodup) :
+    (recSISOps P st u l).Pairwise fun a b => a.key ≠ b.key := by
+  refine List.Pairwise.filterMap (R := (· ≠ ·)) _ ?_ hl
+  intro a a' hne b hb b' hb'
+  split at hb
+  · cases hb
+  · split at hb' 
+    · cases hb'
+    · split at hb <;> split at hb' <;> cases hb <;> cases hb' <;> simp_all [LD.Op.key]
+
+theorem transOps_keys (P : GParams) (st : Node → St) (v : Node) (l : List Node) (hl : l.Nodup) :
+    (transOps P st v l).Pairwise fun a b => a.key ≠ b.key := by
+  refine List.Pairwise.filterMap (R := (· ≠ ·)) _ ?_ hl
+  intro a a' hne b hb b' hb'
+  split at hb
+  · split at hb'
+    · cases hb; cases hb'; simp [LD.Op.key, hne]
+    · split at hb'
+      · cases hb; cases hb'; simp_all [LD.Op.key]
+      · cases hb'
+  · split at hb
+    · split at hb'
+      · cases hb; cases hb'; simp_all [LD.Op.key]
+      · split at hb'
+        · cases hb; cases hb'; simp [LD.Op.key, hne]
+        · cases hb'
+    · cases hb
+
+/-! weights handed to `update` -/
+
+theorem edgeW_isSome (P : GParams) (a b : Node) : (edgeW P a b).isSome = P.ew.isSome := by
+  unfold edgeW; cases P.ew <;> rfl
+
+theorem nodeW_isSome (P : GParams) (a : Node) : (nodeW P a).isSome = P.nw.isSome := by
+  unfold nodeW; cases P.nw <;> rfl
+
+theorem edgeW_some (P : GParams) (f : Node → Node → Rat) (hf : P.ew = some f) (a b : Node) :
+    edgeW P a b = some (f a b) := by
+  unfold edgeW; rw [hf]; rfl
+
+theorem nodeW_some (P : GParams) (f : Node → Rat) (hf : P.nw = some f) (a : Node) :
+    nodeW P a = some (f a) := by
+  unfold nodeW; rw [hf]; rfl
+
+theorem edgeW_nonneg (P : GParams) (h : WF P) (a b : Node) (x : Rat) (hx : edgeW P a b = some x) : 0 ≤ x := by
+  cases hf : P.ew with
+  | none => simp [edgeW, hf] at hx
+  | some f =>
+    rw [edgeW_some P f hf] at hx
+    obtain rfl := Option.some.inj hx
+    exact h.ew_nonneg f hf a b
+
+theorem nodeW_nonneg (P : GParams) (h : WF P) (a : Node) (x : Rat) (hx : nodeW P a = some x) : 0 ≤ x := by
+  cases hf : P.nw with
+  | none => simp [nodeW, hf] at hx
+  | some f =>
+    rw [nodeW_some P f hf] at hx
+    obtain rfl := Option.some.inj hx
+    exact h.nw_nonneg f hf a
+
+theorem fset_self {α β : Type} [DecidableEq α] (f : α → β) (x : α) (v : β) : fset f x v x = v := by
+  simp [fset]
+
+theorem fset_ne {α β : Type} [DecidableEq α] (f : α → β) (x y : α) (v : β) (h : y ≠ x) :
+    fset f x v y = f y := by
+  simp [fset, h]
+
+theorem St.eq_I_of (x : St) (h1 : x ≠ St.S) (h2 : x ≠ St.R) : x = St.I := by
+  cases x <;> simp_all
+
+/-- the links part of a transmission to `v` -/
+theorem trans_links (P : GParams) (h : WF P) (s : GState) (hs : Inv P s) (u v : Node)
+    (huv : (u, v) ∈ s.links.items) :
+    ∃ links', transLoop P (fset s.status v St.I) v s.links (P.nbrs v) = some links' ∧ LD.Inv links' ∧
+      links'.weighted = s.links.weighted ∧
+      (∀ a b, (a, b) ∈ links'.items ↔
+        (a ∈ P.nodes ∧ fset s.status v St.I a = St.I ∧ b ∈ P.nbrs a ∧ fset s.status v St.I b = St.S)) ∧
+      (∀ f, P.ew = some f → ∀ p ∈ links'.items, links'.getW p = f p.1 p.2) := by
+  obtain ⟨hu, hsu, hvu, hsv⟩ := (hs.link_items u v).1 huv
+  have hvn : v ∈ P.nodes := h.nbr_mem u hu v hvu
+  have hok : ∀ o ∈ transOps P (fset s.status v St.I) v (P.nbrs v), o.ok s.links := by
+    intro o ho
+    obtain ⟨n, hn, hg⟩ := List.mem_filterMap.1 ho
+    split at hg
+    · cases hg
+      refine ⟨?_, ?_, edgeW_nonneg P h v n⟩
+      · rw [hs.link_items]; rintro ⟨-, h2, -⟩; rw [hsv] at h2; cases h2
+      · rw [edgeW_isSome, hs.linkW]
+    · split at hg
+      · cases hg
+        rename_i h1 h2
+        obtain ⟨h2, h3⟩ := h2
+        rw [fset_ne _ _ _ _ h3] at h1 h2
+        show (n, v) ∈ s.links.items
+        rw [hs.link_items]
+        refine ⟨h.nbr_mem v hvn n hn, ?_, h.symm v n hn, hsv⟩
+        rcases h2 with h2 | h2
+        · exact St.eq_I_of _ h1 (hs.sis_noR h2 n)
+        · exact h2
+      · cases hg
+  obtain ⟨links', hl, hinv, hwd, hmem, hgw, hgo⟩ :=
+    LD.applyOps_spec' _ s.links hs.linkInv (transOps_keys P (fset s.status v St.I) v (P.nbrs v)
+      (h.nbr_nodup v hvn)) hok
+  simp only [mem_transOps_upd, mem_transOps_rem] at hmem hgw hgo
+  refine ⟨links', by rw [transLoop_eq]; exact hl, hinv, hwd, ?_, ?_⟩
+  · intro a b
+    rw [hmem (a, b), hs.link_items]
+    have hsym := h.symm
+    have hnoR := hs.sis_noR
+    simp only [fset]
+    grind
+  · intro f hf p hp
+    by_cases hup : ∃ w, p.1 = v ∧ p.2 ∈ P.nbrs v ∧ fset s.status v St.I p.2 = St.S ∧ w = edgeW P v p.2
+    · obtain ⟨w, h1, h2, h3, h4⟩ := hup
+      rw [hgw p (f v p.2) ⟨h1, h2, h3, (edgeW_some P f hf v p.2).symm⟩, h1]
+    · obtain ⟨h1, h2⟩ := hgo p hp hup
+      rw [h2]; exact hs.link_w f hf p h1
+
+/-- the links part of an SIR recovery of `u` -/
+theorem recSIR_links (P : GParams) (h : WF P) (s : GState) (hs : Inv P s) (u : Node)
+    (hu : u ∈ s.inf.items) :
+    ∃ links', recLoopSIR (fset s.status u St.R) u s.links (P.nbrs u) = some links' ∧ LD.Inv links' ∧
+      links'.weighted = s.links.weighted ∧
+      (∀ a b, (a, b) ∈ links'.items ↔
+        (a ∈ P.nodes ∧ fset s.status u St.R a = St.I ∧ b ∈ P.nbrs a ∧ fset s.status u St.R b = St.S)) ∧
+      (∀ f, P.ew = some f → ∀ p ∈ links'.items, links'.getW p = f p.1 p.2) := by
+  obtain ⟨hun, hsu⟩ := (hs.inf_items u).1 hu
+  have hok : ∀ o ∈ recSIROps (fset s.status u St.R) u (P.nbrs u), o.ok s.links := by
+    intro o ho
+    obtain ⟨n, hn, hg⟩ := List.mem_filterMap.1 ho
+    split at hg
+    · cases hg
+      rename_i h1
+      show (u, n) ∈ s.links.items
+      rw [hs.link_items]
+      refine ⟨hun, hsu, hn, ?_⟩
+      have hne : n ≠ u := by
+        rintro rfl; rw [fset_self] at h1; cases h1
+      rwa [fset_ne _ _ _ _ hne] at h1
+    · cases hg
+  obtain ⟨links', hl, hinv, hwd, hmem, hgw, hgo⟩ :=
+    LD.applyOps_spec' _ s.links hs.linkInv (recSIROps_keys (fset s.status u St.R) u (P.nbrs u)
+      (h.nbr_nodup u hun)) hok
+  simp only [mem_recSIROps_upd, mem_recSIROps_rem, exists_false, or_false, not_false_eq_true,
+    forall_true_left] at hmem hgw hgo
+  refine ⟨links', by rw [recLoopSIR_eq]; exact hl, hinv, hwd, ?_, ?_⟩
+  · intro a b
+    rw [hmem (a, b), hs.link_items]
+    simp only [fset]
+    grind
+  · intro f hf p hp
+    obtain ⟨h1, h2⟩ := hgo p hp
+    rw [h2]; exact hs.link_w f hf p h1
+
+/-- the links part of an SIS recovery of `u` -/
+theorem recSIS_links (P : GParams) (h : WF P) (s : GState) (hs : Inv P s) (u : Node)
+    (hu : u ∈ s.inf.items) (hsis : P.sis = true) :
+    ∃ links', recLoopSIS P (fset s.status u St.S) u s.links (P.nbrs u) = some links' ∧ LD.Inv links' ∧
+      links'.weighted = s.links.weighted ∧
+      (∀ a b, (a, b) ∈ links'.items ↔
+        (a ∈ P.nodes ∧ fset s.status u St.S a = St.I ∧ b ∈ P.nbrs a ∧ fset s.status u St.S b = St.S)) ∧
+      (∀ f, P.ew = some f → ∀ p ∈ links'.items, links'.getW p = f p.1 p.2) := by
+  obtain ⟨hun, hsu⟩ := (hs.inf_items u).1 hu
+  have hok : ∀ o ∈ recSISOps P (fset s.status u St.S) u (P.nbrs u), o.ok s.links := by
+    intro o ho
+    obtain ⟨n, hn, hg⟩ := List.mem_filterMap.1 ho
+    split at hg
+    · cases hg
+    · rename_i hne
+      split at hg
+      · cases hg
+        rename_i h1
+        show (u, n) ∈ s.links.items
+        rw [hs.link_items]
+        rw [fset_ne _ _ _ _ hne] at h1
+        exact ⟨hun, hsu, hn, h1⟩
+      · cases hg
+        refine ⟨?_, ?_, edgeW_nonneg P h u n⟩
+        · rw [hs.link_items]; rintro ⟨-, -, -, h2⟩; rw [hsu] at h2; cases h2
+        · rw [edgeW_isSome, hs.linkW]
+  obtain ⟨links', hl, hinv, hwd, hmem, hgw, hgo⟩ :=
+    LD.applyOps_spec' _ s.links hs.linkInv (recSISOps_keys P (fset s.status u St.S) u (P.nbrs u)
+      (h.nbr_nodup u hun)) hok
+  simp only [mem_recSISOps_upd, mem_recSISOps_rem] at hmem hgw hgo
+  refine ⟨links', by rw [recLoopSIS_eq]; exact hl, hinv, hwd, ?_, ?_⟩
+  · intro a b
+    rw [hmem (a, b), hs.link_items]
+    have hsym := h.symm
+    have hI : ∀ x, s.status x ≠ St.S → s.status x = St.I :=
+      fun x hx => St.eq_I_of _ hx (hs.sis_noR hsis x)
+    have hnl := h.noloop
+    have hnm := h.nbr_mem u hun
+    simp only [fset]
+    grind
+  · intro f hf p hp
+    by_cases hup : ∃ w, p.2 = u ∧ p.1 ∈ P.nbrs u ∧ p.1 ≠ u ∧ fset s.status u St.S p.1 ≠ St.S ∧
+        w = edgeW P u p.1
+    · obtain ⟨w, h1, h2, h3, h4, h5⟩ := hup
+      rw [hgw p (f u p.1) ⟨h1, h2, h3, h4, (edgeW_some P f hf u p.1).symm⟩, h1]
+      exact h.ew_symm f hf u p.1
+    · obtain ⟨h1, h2⟩ := hgo p hp hup
+      rw [h2]; exact hs.link_w f hf p h1
+
+/-! ### event applications preserve the invariant -/
+
+theorem applyRec_inv' (P : GParams) (h : WF P) (s : GState) (hs : Inv P s) (u : Node) (t : Rat)
+    (hu : u ∈ s.inf.items) :
+    ∃ s', applyRec P s u t = some s' ∧ Inv P s' ∧ s'.status = Chain.apply P s.status (.recover u) := by
+  obtain ⟨hun, hsu⟩ := (hs.inf_items u).1 hu
+  obtain ⟨inf', hinf', hinvI, hwdI, hmemI, hgetI⟩ := LD.remove_any s.inf u hs.infInv hu
+  have key : ∀ (x : St) (links' : LD (Node × Node)), x ≠ St.I → (P.sis = true → x = St.S) →
+      LD.Inv links' → links'.weighted = s.links.weighted →
+      (∀ a b, (a, b) ∈ links'.items ↔
+        (a ∈ P.nodes ∧ fset s.status u x a = St.I ∧ b ∈ P.nbrs a ∧ fset s.status u x b = St.S)) →
+      (∀ f, P.ew = some f → ∀ p ∈ links'.items, links'.getW p = f p.1 p.2) →
+      ∀ (tm : List Rat) (S I R : List Int) (lg : List (Rat × GEvent)),
+      Inv P { status := fset s.status u x, inf := inf', links := links', times := tm, S := S, I := I,
+              R := R, log := lg } := by
+    intro x links' hxI hxS hinvL hwdL hmemL hgetL tm S I R lg
+    refine ⟨hinvI, hinvL, hwdI.trans hs.infW, hwdL.trans hs.linkW, ?_, hmemL, ?_, hgetL, ?_⟩
+    · intro a
+      show a ∈ inf'.items ↔ (a ∈ P.nodes ∧ fset s.status u x a = St.I)
+      rw [hmemI, hs.inf_items]
+      by_cases ha : a = u
+      · subst ha; rw [fset_self]; simp [hxI]
+      · rw [fset_ne _ _ _ _ ha]; simp [ha]
+    · intro f hf a ha
+      have ha' := (hmemI a).1 ha
+      show inf'.getW a = f a
+      rw [hgetI a ha'.2]; exact hs.inf_w f hf a ha'.1
+    · intro hsis a
+      show fset s.status u x a ≠ St.R
+      by_cases ha : a = u
+      · subst ha; rw [fset_self, hxS hsis]; simp
+      · rw [fset_ne _ _ _ _ ha]; exact hs.sis_noR hsis a
+  cases hsis : P.sis with
+  | true =>
+    obtain ⟨links', hl, hinvL, hwdL, hmemL, hgetL⟩ := recSIS_links P h s hs u hu hsis
+    refine ⟨_, ?_, key St.S links' (by simp) (fun _ => rfl) hinvL hwdL hmemL hgetL _ _ _ _ _, ?_⟩
+    · simp only [applyRec, hinf', hsis, if_true, hl]; rfl
+    · simp [Chain.apply, hsis]
+  | false =>
+    obtain ⟨links', hl, hinvL, hwdL, hmemL, hgetL⟩ := recSIR_links P h s hs u hu
+    refine ⟨_, ?_, key St.R links' (by simp) (fun hc => by simp [hsis] at hc) hinvL hwdL hmemL hgetL _ _ _ _ _, ?_⟩
+    · simp only [applyRec, hinf', hsis, Bool.false_eq_true, if_false, hl]; rfl
+    · simp [Chain.apply, hsis]
+
+theorem applyTrans_inv' (P : GParams) (h : WF P) (s : GState) (hs : Inv P s) (u v : Node) (t : Rat)
+    (huv : (u, v) ∈ s.links.items) :
+    ∃ s', applyTrans P s u v t = some s' ∧ Inv P s' ∧
+      s'.status = Chain.apply P s.status (.transmit u v) := by
+  obtain ⟨hu, hsu, hvu, hsv⟩ := (hs.link_items u v).1 huv
+  have hvn : v ∈ P.nodes := h.nbr_mem u hu v hvu
+  have hvinf : v ∉ s.inf.items := by
+    rw [hs.inf_items]; rintro ⟨-, h2⟩; rw [hsv] at h2; cases h2
+  obtain ⟨inf', hinf'⟩ := LD.update_exists s.inf v (nodeW P v) (by rw [nodeW_isSome, hs.infW])
+  obtain ⟨hwdI, hmemI, hgetI⟩ := LD.update_any s.inf inf' v (nodeW P v) hinf'
+  have hinvI : LD.Inv inf' := LD.inv_update s.inf inf' v (nodeW P v) hs.infInv (nodeW_nonneg P h v) hinf'
+  obtain ⟨links', hl, hinvL, hwdL, hmemL, hgetL⟩ := trans_links P h s hs u v huv
+  refine ⟨_, ?_, ?_, ?_⟩
+  · simp only [applyTrans, hinf', hl]; rfl
+  · refine ⟨hinvI, hinvL, hwdI.trans hs.infW, hwdL.trans hs.linkW, ?_, hmemL, ?_, hgetL, ?_⟩
+    · intro a
+      show a ∈ inf'.items ↔ (a ∈ P.nodes ∧ fset s.status v St.I a = St.I)
+      rw [hmemI, hs.inf_items]
+      by_cases ha : a = v
+      · subst ha; rw [fset_self]; simp [hvn]
+      · rw [fset_ne _ _ _ _ ha]; simp [ha]
+    · intro f hf a ha
+      show inf'.getW a = f a
+      by_cases hav : a = v
+      · subst hav
+        rw [nodeW_some P f hf] at hinf'
+        rw [LD.update_getW_self s.inf inf' a (f a) hinf',
+          LD.getW_of_not_mem s.inf hs.infInv (by rw [hs.infW, hf]; rfl) a hvinf]
+        ring
+      · rw [hgetI a hav]
+        rcases (hmemI a).1 ha with h1 | h1
+        · exact hs.inf_w f hf a h1
+        · exact absurd h1 hav
+    · intro hsis a
+      show fset s.status v St.I a ≠ St.R
+      by_cases ha : a = v
+      · subst ha; rw [fset_self]; simp
+      · rw [fset_ne _ _ _ _ ha]; exact hs.sis_noR hsis a
+  · simp [Chain.apply]
+
+end Gillespie
